@@ -88,9 +88,20 @@ def nullable_rep(pp, root):
 
 
 def eval_case(job):
-    """worker: job = dict(prog, root, inputs, entries=[(entry, opts)], modes=[mode], keep_tabs=False, allow_nullable=False)
-    returns dict(skip=reason) or dict(records=[(input, entry, opts, mode, impl_text, model_line)])"""
+    """worker: job = dict(prog, root, inputs, entries=[(entry, opts)], modes=[mode], keep_tabs=False, allow_nullable=False,
+    default_ws=None) returns dict(skip=reason) or dict(records=[(input, entry, opts, mode, impl_text, model_line)]).
+    default_ws: run the whole case after `set_default_whitespace_chars(default_ws)` (preceded by one parse_all call under
+    the standard defaults), inside reset_pyparsing_context so that the worker is left pristine."""
     pp = common.import_pyparsing()
+    if job.get("default_ws") is not None:
+        pp.Empty().parse_string("", parse_all=True)
+        with pp.testing.reset_pyparsing_context():
+            pp.ParserElement.set_default_whitespace_chars(job["default_ws"])
+            return _eval_case(pp, job)
+    return _eval_case(pp, job)
+
+
+def _eval_case(pp, job):
     try:
         b = gram.build(pp, job["prog"])
     except Exception as ex:  # constructor refused the arguments: not a grammar
